@@ -1,5 +1,6 @@
 import Driver.TLVal
 import Mtv.TL.Decode
+import Mtv.TL.DecodeCost
 import Mtv.TL.Encode
 import Mtv.Crypto.Crc32
 import Mtv.Gen.Registry
@@ -157,7 +158,24 @@ def parMember (s : String) : Option String :=
     | _, _ => none
   | _ => none
 
+/-- result and cost of one decode: `<result> ## cost=<alloc units>,<gunzip calls>,<bytes gunzip produced>` -/
+def showCost (p : Outcome Val × Cost) : String :=
+  showOut p.1 ++ " ## cost=" ++ toString p.2.alloc ++ "," ++ toString p.2.gzCalls ++ "," ++ toString p.2.gzOut
+
 def handle : List String → String
+  -- `c15.cost u <bytes> <hints> <gz>` / `c15.cost n <id> <bytes> <gz>`: the instrumented decoder
+  -- (Mtv/TL/DecodeCost.lean; theorems cost_erasure, decode_alloc_linear): the result of `c15.unk` / `c15.named`
+  -- and next to it what the model says the call allocates. The Go side measures the real call against it.
+  | ["c15.cost", "u", b, hints, gz] =>
+    match parseBytes? b, parseHints? hints, parseGz? gz with
+    | some bs, some hs, some tbl =>
+      showCost (decodeUnknownC Mtv.Gen.registry (gunzipOf tbl) (fuelFor bs (tblG tbl)) hs bs)
+    | _, _, _ => "bad-op"
+  | ["c15.cost", "n", id, b, gz] =>
+    match hexNat? id.toList, parseBytes? b, parseGz? gz with
+    | some id, some bs, some tbl =>
+      showCost (decodeNamedC Mtv.Gen.registry (gunzipOf tbl) (fuelFor bs (tblG tbl)) id bs)
+    | _, _, _ => "bad-op"
   -- `c15.par <mode> <n> <seed> <member>…`: n goroutines decode every member at the same time, each in its own
   -- order (in a new process or in the harness process). Decoding is a function of the bytes: whatever the
   -- interleaving, every member has the result of the sequential model; the line is those results in order.
@@ -167,6 +185,12 @@ def handle : List String → String
       | some outs => " ;; ".intercalate outs
       | none => "bad-op"
     else "bad-op"
+  -- `c15.stack fresh <target> <k> <unit> <suffix>`: unit x k ++ suffix decoded by a new process with a small stack
+  -- (the depth of the real decoder's recursion, D28). The model has no stack and does not carry the limit of
+  -- 10000 nested objects; every generated operation repeats a unit that opens an object and never closes it, so
+  -- in the model as well the input is an object cut short: the class of the result is an error. Only operations
+  -- of that form (no suffix) are answered.
+  | ["c15.stack", "fresh", _, k, _, "-"] => if k.toNat?.isSome then "err" else "bad-op"
   | ["c15.unk", b, hints, gz] =>
     match parseBytes? b, parseHints? hints, parseGz? gz with
     | some bs, some hs, some tbl =>
